@@ -224,6 +224,34 @@ fn iter_case(rng: &mut Rng) -> (String, String) {
     (case, verdict)
 }
 
+/// one bar, several passes: a wrapped iterator is driven to its end, the bar is reset, and a second wrapper around the same bar is
+/// driven to its end — every pass finishes the bar by the behaviour it was configured with (position, message, finished), not only
+/// the first one
+fn iter_passes_case(rng: &mut Rng) -> (String, String) {
+    let n = rng.range(1, 8);
+    let fin = rng.below(5);
+    let len: Option<u64> = match rng.below(3) { 0 => None, 1 => Some(n), _ => Some(n + rng.range(1, 5)) };
+    let finish = match fin { 0 => ProgressFinish::AndLeave, 1 => ProgressFinish::AndClear, 2 => ProgressFinish::WithMessage("done".into()), 3 => ProgressFinish::Abandon, _ => ProgressFinish::AbandonWithMessage("stop".into()) };
+    let pb = match len { Some(l) => ProgressBar::with_draw_target(Some(l), ProgressDrawTarget::hidden()), None => ProgressBar::with_draw_target(None, ProgressDrawTarget::hidden()) }.with_finish(finish);
+    let by_drop = rng.chance(1, 3);
+    let case = format!("ITERPASSES n={n} len={len:?} finish={fin} second_by_drop={by_drop}");
+    let mut verdict = String::from("ok");
+    for pass in 0..3 {
+        pb.set_message("m");
+        let got: u64 = if pass == 2 && by_drop { let mut it = pb.wrap_iter(0..n); let _ = it.next(); drop(it); 1 } else { pb.wrap_iter(0..n).count() as u64 };
+        // (a wrapper dropped before its end does not finish the bar; only the last handle does, which this harness keeps)
+        let exhausted = !(pass == 2 && by_drop);
+        let want_pos = if !exhausted { got } else if fin <= 2 { len.unwrap_or(n) } else { n };
+        let want_msg = if !exhausted { "m" } else { match fin { 2 => "done", 4 => "stop", _ => "m" } };
+        if verdict == "ok" && (pb.is_finished() != exhausted || pb.position() != want_pos || pb.message() != want_msg) {
+            verdict = format!("FAIL pass {pass}: after the iterator's end the bar has finished={} position={} message={:?}, its finish behaviour gives finished={exhausted} position={want_pos} message={want_msg:?}", pb.is_finished(), pb.position(), pb.message());
+        }
+        pb.reset();
+    }
+    std::mem::forget(pb);
+    (case, verdict)
+}
+
 /// the `ProgressIterator` constructors (`progress`, `progress_count`, `progress_with_style`, `try_progress`) and the builder methods
 /// of `ProgressBarIter` (`with_*`): the wrapper they give has the length / position / texts / finish behaviour asked for, hands out
 /// the same items and the same `len()` / `size_hint()` as the bare iterator, and counts them
@@ -453,6 +481,7 @@ pub fn run(seed: u64, tier: &str, out: &mut Out) {
     for _ in 0..n / 4 { let (c, v) = iter_case(&mut rng); out.emit(&format!("NOMODEL {c}"), &format!(" ORACLE {v}")); }
     for _ in 0..n / 4 { let (c, v) = iter_modes_case(&mut rng); out.emit(&format!("NOMODEL {c}"), &format!(" ORACLE {v}")); }
     for _ in 0..n / 8 { let (c, v) = iter_ctor_case(&mut rng); out.emit(&format!("NOMODEL {c}"), &format!(" ORACLE {v}")); }
+    for _ in 0..n / 8 { let (c, v) = iter_passes_case(&mut rng); out.emit(&format!("NOMODEL {c}"), &format!(" ORACLE {v}")); }
     for _ in 0..n / 40 { let (c, v) = rayon_case(&mut rng); out.emit(&format!("NOMODEL {c}"), &format!(" ORACLE {v}")); }
 }
 
